@@ -188,13 +188,13 @@ func c09Pool(r *core.Run, g *Gen, n int) []c09Tx {
 			add(clone(a[:]), msg, append(clone(rr[:]), make([]byte, 32)...), o, "small-order-A-R-S0")
 		case 9:
 			// non-canonical A (small order, S = 0, R = identity or torsion)
-			a := nonCanonicalPoints[t.W(len(nonCanonicalPoints))]
+			a := ncPoints()[t.W(len(ncPoints()))]
 			var rr curve.CompressedEdwardsY
 			rr.SetEdwardsPoint(curve.EIGHT_TORSION[t.W(8)])
 			add(clone(a), msg, append(clone(rr[:]), make([]byte, 32)...), o, "non-canonical-A")
 		case 10:
 			// honest key, non-canonical small-order R with S = k*a
-			rr := nonCanonicalPoints[t.W(len(nonCanonicalPoints))]
+			rr := ncPoints()[t.W(len(ncPoints()))]
 			priv := ed25519.NewKeyFromSeed(seed)
 			k := hramScalar(dom2, rr, priv[32:], msg)
 			S := k.Mul(k, edSecretScalar(priv))
